@@ -59,6 +59,8 @@ func rCases() []rCase {
 		{"C03", m("t.txt", "a{# c #}b{#- d -#}"), "t.txt", nil, "ab", false},
 		{"C03", m("t.txt", "{% verbatim %}a{% if %}b{{ x }}{# c #}{% endverbatim %}z"), "t.txt", nil, "a{% if %}b{{ x }}{# c #}z", false},
 		{"C03", m("t.txt", "x{% if t %}y{% for i in xs %}[{{ i }}]{% endfor %}w{% endif %}z"), "t.txt", map[string]stick.Value{"t": true, "xs": xs}, "xy[a][b][c]wz", false},
+		// C04
+		{"C04", m("t.txt", "{{ 10 - 1 - 2 - 3 }}|{{ ((10 - 1) - 2) - 3 }}|{{ -1 + 2 }}|{{ 1 < 2 ? 3 : 4 }}|{{ 2 * 3 + 4 * 5 }}|{{ 2 ** 3 ** 2 }}|{{ 1 + 2 * 3 - 4 }}|{{ 8 / 2 / 2 }}|{{ not true and false }}|{{ 16 / 4 / 2 / 2 }}|{{ 2 + 3 * 4 ** 2 }}|{{ true ? false ? 1 : 2 : 3 }}|{{ 1 == 1 and 2 == 2 or false }}|{{ 7 - 2 * 3 + 1 }}"), "t.txt", nil, "4|4|1|3|26|512|3|2||1|50|2|1|2", false},
 		// C05
 		{"C05", m("t.txt", "{{ 7 - 2 }}|{{ 2 * 3 + 1 }}|{{ 7 / 2 }}|{{ 7 // 2 }}|{{ 7 % 3 }}|{{ 2 ** 3 }}|{{ -x }}|{{ +x }}"), "t.txt", map[string]stick.Value{"x": 4}, "5|7|3.5|3|1|8|-4|4", false},
 		{"C05", m("t.txt", "{{ 3 >= 3 }}|{{ 3 > 3 }}|{{ 2 <= 1 }}|{{ 1 < 2 }}|{{ 1 == '1' }}|{{ 1 != 2 }}|{{ not false }}|{{ true and false }}|{{ false or true }}"), "t.txt", nil, "1|||1|1|1|1||1", false},
